@@ -7,8 +7,10 @@ import (
 	"errors"
 	"fmt"
 	"io"
+	"runtime"
 	"strings"
 	"testing"
+	"time"
 
 	"git.torproject.org/pluggable-transports/snowflake.git/v2/common/amp"
 	"pgregory.net/rapid"
@@ -247,9 +249,27 @@ func (r *fragReader) Read(p []byte) (int, error) {
 	return n, nil
 }
 
+// ampWorkers counts goroutines that are inside the decoder's worker function.
+func ampWorkers() int {
+	buf := make([]byte, 1<<20)
+	buf = buf[:runtime.Stack(buf, true)]
+	return strings.Count(string(buf), "common/amp.decodeToWriter(")
+}
+
+var errWorkerLeft = errors.New("worker left behind")
+
 func decode(c acase, doc string) ([]byte, error) {
+	before := ampWorkers()
 	dec, err := amp.NewArmorDecoder(&fragReader{s: doc, sizes: c.SrcReads})
 	if err != nil {
+		// the constructor refused the document (e.g. unknown version): it hands no reader out, so nobody can
+		// ever drain or close the decoder - its worker must have been released ("no hang, no unbounded buffering")
+		for i := 0; i < 200 && ampWorkers() > before; i++ {
+			time.Sleep(5 * time.Millisecond)
+		}
+		if n := ampWorkers(); n > before {
+			return nil, fmt.Errorf("%w: NewArmorDecoder returned %q and left %d worker goroutine(s) blocked inside the decoder", errWorkerLeft, err, n-before)
+		}
 		return nil, err
 	}
 	if len(c.Reads) == 0 {
@@ -332,6 +352,9 @@ func runArmor(_ *testing.T, c acase) error {
 		got, err := decode(c, bad)
 		if err == nil {
 			return fmt.Errorf("document with defect %q decoded without error to %d bytes (payload %d bytes)", c.Mut, len(got), c.Size)
+		}
+		if errors.Is(err, errWorkerLeft) {
+			return fmt.Errorf("document with defect %q (payload %d bytes): %v", c.Mut, c.Size, err)
 		}
 		return nil
 	}
